@@ -1,4 +1,3 @@
 package main
 
 func genBasexStream(ctx *Ctx, emit func(Case)) {}
-func genFields(ctx *Ctx, emit func(Case))      {}
